@@ -141,6 +141,7 @@ func execCacheable(cc *CacheableCase) (sig, summary string) {
 
 	private := map[string]*entry{}
 	wantLoaded := map[string]string{}
+	byTenant := map[string]string{}
 	now := env.T0
 
 	for n, st := range cc.Steps {
@@ -169,6 +170,15 @@ func execCacheable(cc *CacheableCase) (sig, summary string) {
 
 			src := "http_endpoint:" + ids[idx[t]]
 			wantLoaded[src] = fmt.Sprintf("%s%d", t, e.version)
+			byTenant[t] = wantLoaded[src]
+
+			// the two endpoints are two sources, whatever the provider calls them: every endpoint polled so far has its
+			// content loaded
+			if contents(rec.loaded) != contents(byTenant) {
+				return "http_endpoint/endpoints-differing-in-the-query-are-not-two-sources",
+					fmt.Sprintf("steps=%v: loaded contents %s (sources %s), expected %s (calls %v)", cc.Steps[:n+1], contents(rec.loaded),
+						render(rec.loaded), contents(byTenant), rec.calls)
+			}
 
 			if render(rec.loaded) != render(wantLoaded) {
 				return "http_endpoint/endpoint-loaded-with-content-another-endpoint-was-answered-with",
@@ -179,6 +189,18 @@ func execCacheable(cc *CacheableCase) (sig, summary string) {
 	}
 
 	return "", "ok"
+}
+
+// contents renders the loaded contents without the names of their sources.
+func contents(m map[string]string) string {
+	vals := make([]string, 0, len(m))
+	for _, v := range m {
+		vals = append(vals, v)
+	}
+
+	sort.Strings(vals)
+
+	return "[" + strings.Join(vals, " ") + "]"
 }
 
 func render(m map[string]string) string {
